@@ -164,8 +164,18 @@ func runExhaust(ctx context.Context, w *out.W, tier, tmp, outDir, only string) {
 			}
 		}
 	}
+	// the foreign-key family (fkfam5.go): every case on every connection / tx combination
+	for _, c := range fkFamilyCases() {
+		if only == "" || only == c.ID {
+			cases = append(cases, c)
+		}
+	}
 	ms := []Mode{{Store: "mem", FK: true, Tx: "none"}, {Store: "mem", FK: true, Tx: "file"}, {Store: "mem", FK: false, Tx: "file"}}
 	runCases(ctx, w, cases, func(i int) []Mode {
+		if strings.HasPrefix(cases[i].ID, "f-") {
+			return []Mode{{Store: "mem", FK: true, Tx: "none"}, {Store: "mem", FK: true, Tx: "file"}, {Store: "mem", FK: false, Tx: "none"},
+				{Store: "mem", FK: false, Tx: "file"}, {Store: "file", FK: true, Tx: "file"}, {Store: "file", FK: true, Tx: "none"}}
+		}
 		if strings.HasPrefix(cases[i].ID, "x4-") {
 			return []Mode{{Store: "mem", FK: true, Tx: "none"}, {Store: "file", FK: false, Tx: "file"}}[i%2 : i%2+1]
 		}
